@@ -881,6 +881,18 @@ fn semantic_case(case: u64, p: &Prog, rng: &mut Rng, st: &mut Stats, kind: &str)
 
     // (1a) constructors, (2) dedup
     let mut ctx = Context::new();
+    if rng.chance(0.25) {
+        // a recycled context: an unrelated program is built first, then the
+        // context is cleared ("all handles from this context are invalidated")
+        // and everything below happens in the second generation
+        let pre = focused_prog(rng);
+        let pre_vars = prog::fresh_vars(pre.n_vars);
+        if guarded(|| build_into(&mut ctx, &pre, &pre_vars, None)).is_err() {
+            return;
+        }
+        ctx.clear();
+        st.inc("programs_built_in_a_cleared_context");
+    }
     let built = match guarded(|| build_into(&mut ctx, p, &vars, Some(&mut *st))) {
         Ok(b) => b,
         Err(pi) => return panic_violation(st, case, "constructors", &pi, p),
@@ -899,6 +911,37 @@ fn semantic_case(case: u64, p: &Prog, rng: &mut Rng, st: &mut Stats, kind: &str)
         Ok(true) => (),
         Ok(false) => return,
         Err(pi) => return panic_violation(st, case, "Context::eval", &pi, p),
+    }
+    // (1a') the compound constructor if_nonzero_else(c, a, b) ("if c is
+    // non-zero, a, else b" - also what the derivative of min/max/and/or/mod
+    // is built from) on operand triples drawn from the program's own nodes
+    for _ in 0..(if n >= 3 { 3 } else { 0 }) {
+        let (c, a, b) = (rng.below(n), rng.below(n), rng.below(n));
+        let node = match guarded(|| ctx.if_nonzero_else(built[c], built[a], built[b])) {
+            Ok(Ok(node)) => node,
+            Ok(Err(_)) => continue,
+            Err(pi) => return panic_violation(st, case, "if_nonzero_else", &pi, p),
+        };
+        for (k, inp) in inputs.iter().enumerate() {
+            let info = &infos[k];
+            if !(info.finite[c] && info.finite[a] && info.finite[b] && info.sign_ok[c] && info.sign_ok[a] && info.sign_ok[b]) {
+                continue;
+            }
+            let want = if info.vals[c] != 0.0 { info.vals[a] } else { info.vals[b] };
+            let map: HashMap<Var, f32> = vars.iter().copied().zip(inp.iter().copied()).collect();
+            let Ok(got) = ctx.eval(node, &map) else { continue };
+            st.inc("value_comparisons_if_nonzero_else");
+            // (up to the sign of zero, as everywhere in this property)
+            if !(got == want || (got.is_nan() && want.is_nan())) {
+                st.violation(
+                    case,
+                    "value:ctor:if_nonzero_else".to_string(),
+                    format!("if_nonzero_else(c, a, b) evaluates to {got:?} where c = {:?}, a = {:?}, b = {:?}", info.vals[c], info.vals[a], info.vals[b]),
+                    json!({"program": p.to_json(), "c": c, "a": a, "b": b, "input": inp.iter().map(|v| format!("{v:?}")).collect::<Vec<_>>()}),
+                );
+                return;
+            }
+        }
     }
     let len1 = ctx.len();
     let again = build_into(&mut ctx, p, &vars, None);
